@@ -203,7 +203,12 @@ theorem lock_only_by_acquire (cfg : Cfg) (s : Table) (l c : Nat) (cmds : List Cm
     obtain ⟨t0, h0, _⟩ := (isAcquired_iff cfg _ l c now).mp hq
     exact absurd h0 (not_held_run cfg cmds s l c h hn t0)
 
-/-- **Told failed ⇒ not kept** (code with `fixes/D73-…`, `comp = true`).  A `tryAcquire` whose outcome is
+/-- **Told failed ⇒ not kept, when the compensating release follows the acquire in the log** (code with
+`fixes/D73-…`, `comp = true`; *partial*: the ORDER "acquire … release" is built into the shape of the log below.
+It holds whenever both commands travel through the same node's queue to the same leader; it is exactly what
+D73b breaks -- an `apply_command` delayed in the channel to a deposed leader across two elections is appended
+after the release, see `compensating_release_overtaken_counterexample`; recorded finding
+`…:failed-acquire-kept:compensating-release-overtaken`).  A `tryAcquire` whose outcome is
 reported as failed although the command may still be committed (`Timeout` of the sync call, `LEADER_CHANGED`
 on either path: `res ≠ some true`, `outcomeOpen`) submits `release l self`.  Whatever the state `s`, whenever
 the `acquire` is committed after all, whatever is committed between it and the compensating release (`mid`,
@@ -244,6 +249,22 @@ example :
     c.isAcquired cfg (stateAfter cfg (log.take 3)) 1 113 = true ∧
       c.isAcquired cfg (stateAfter cfg log) 1 116 = false ∧
       (acquire cfg (stateAfter cfg log) 1 2 116).2 = true := by decide
+
+/-- **D73b, repaired code (`comp = true`), the order the partial theorem excludes.**  The trace of the real
+cluster (witness replay (C), U = 10): client 2's `tryAcquire` at 100 is told `LEADER_CHANGED`; the wrapper submits
+the compensating `release`, which is committed FIRST; the delayed `acquire(L1, c2, 100)` is appended afterwards
+(at about 106); the client's prolongation pass prolongs every lock of the client (107, 110, 113, 116, 119): at 119
+the client considers the lock held and a competitor's acquire is refused -- told failed, lock kept. -/
+theorem compensating_release_overtaken_counterexample :
+    ∃ (cfg : Cfg) (c : Client) (l att acq now : Nat) (log : List Cmd),
+      cfg.U < 2 * (acq - att) ∧
+      c.tryAcquireFinish cfg l att acq none true true = (none, [.release l c.self]) ∧
+      log = (c.tryAcquireFinish cfg l att acq none true true).2 ++ [c.tryAcquireCmd l att] ++
+        [Cmd.prolongate c.self 107, .prolongate c.self 110, .prolongate 3 110, .acquire l 3 110, .prolongate c.self 113,
+         .prolongate c.self 116, .prolongate c.self 119] ∧
+      c.isAcquired cfg (stateAfter cfg log) l now = true ∧
+      (acquire cfg (stateAfter cfg log) l 3 now).2 = false :=
+  ⟨{ U := 10 }, ⟨2, 0⟩, 1, 100, 106, 119, _, by decide, by decide, rfl, by decide, by decide⟩
 
 /-- **D73, code before the repair (`comp = false`): told failed, lock kept.**  The wrapper submits nothing for
 a failure with an open outcome; the acquire (attempt at 100, U = 10) is committed after the client was told
